@@ -585,6 +585,16 @@ func TestCheck(t *testing.T) {
 				}
 				return runLoss(t, lc)
 			}
+			var iprobe struct {
+				ImportLoss string `json:"import_loss"`
+			}
+			if json.Unmarshal(in, &iprobe) == nil && iprobe.ImportLoss != "" {
+				var ic ImportLossCase
+				if err := json.Unmarshal(in, &ic); err != nil {
+					return ImportLossResult{Harness: "bad case"}
+				}
+				return runImportLoss(t, ic)
+			}
 			var hprobe struct {
 				Halt string `json:"halt_kind"`
 			}
@@ -680,7 +690,39 @@ func TestCheck(t *testing.T) {
 	})
 	lossCov := lossPart(run, pool)
 	haltCov := haltPart(run, pool)
+	// Part D: authority lost while the body of an import is arriving.
+	var icases []any
+	var icasesT []ImportLossCase
+	for _, wal := range []bool{false, true} {
+		for _, kind := range []string{"demote", "handoff"} {
+			for at := 0; at < 7; at++ {
+				ic := ImportLossCase{ImportLoss: kind, WAL: wal, At: at}
+				icases = append(icases, ic)
+				icasesT = append(icasesT, ic)
+			}
+		}
+	}
+	iclasses := map[string]int{}
+	pool.Run(icases, func(i int, out json.RawMessage, crash *vlib.Crash, flaky bool) {
+		if crash != nil {
+			run.Violation("crash/import-loss/"+icasesT[i].ImportLoss, fmt.Sprintf("worker died twice on %+v (timeout=%v)\n%s", icasesT[i], crash.Timeout, tail(crash.Output, 2500)), map[string]any{"import_loss_case": icasesT[i]})
+			return
+		}
+		var r ImportLossResult
+		if err := json.Unmarshal(out, &r); err != nil {
+			run.HarnessError("bad import-loss result: %v", err)
+			return
+		}
+		if r.Harness != "" {
+			run.HarnessError("%s (import-loss case %+v)", r.Harness, icasesT[i])
+		}
+		for _, v := range r.V {
+			run.Violation(v.Key, v.What, map[string]any{"import_loss_case": icasesT[i]})
+		}
+		iclasses[r.Class]++
+	})
 	cov := map[string]any{
+		"authority_lost_during_import":   map[string]any{"cases": len(icases), "outcome_classes": iclasses, "rule": "demotion or hand-off inside each of the first seven reads of the request body (the three-page image arrives in 300-byte pieces), both journal modes of the target"},
 		"authority_lost_mid_transaction": lossCov,
 		"former_halt_lock_holder":        haltCov,
 		"states":                        ops,
